@@ -15,6 +15,7 @@ EXPLANATION = (
     "conforming arguments and read only attributes their isinstance-narrowed elements have; (F6-load) load_score maps each "
     "extension family to its reader, lower-cases the extension on every path and raises otherwise; (F8a/F7a)."
     ' (ITER-local) the staff of each MEI chord note is assigned on every path of the loop round.'
+    ' (DOTS-fold) importkern.dot_function folded at 45 constant argument pairs in exact rationals equals d*2^k/(2^(k+1)-1).'
 )
 NOT_DECIDED = [
     "what a given MEI/kern document denotes (parsing semantics of two formats: run-time)",
@@ -115,6 +116,8 @@ def rule_load_dispatch(ctx):
 
 
 def run(ctx):
+    from ..rules import round6 as _R6
+    _R6.rule_kern_dots_closed_form(ctx)
     from ..rules import round5 as _R5b
     _R5b.rule_statement_order_siblings(ctx)
     from ..rules import round5 as _R5
